@@ -502,6 +502,13 @@ def run_shape(args):
     """Worker entry: explore one shape, decide its obligations, replay counterexamples."""
     module, tier, index, prop = args
     t0 = time.perf_counter()
+    # z3's verbose mode (switched on process-wide by debug=True solvers) writes to fd 2 from C
+    try:
+        devnull = os.open(os.devnull, os.O_WRONLY)
+        os.dup2(devnull, 2)
+        os.close(devnull)
+    except OSError:
+        pass
     out = {"shape": None, "results": [], "paths": 0, "error": None, "functions": [], "explorer_queries": 0}
     try:
         mod = importlib.import_module(module)
